@@ -5,7 +5,7 @@ import statelib
 from framework import Unit
 from props.c02 import set_reg
 
-PROPS_FILES = ['C09', 'C09par', 'C09ext', 'C09dsp']
+PROPS_FILES = ['C09', 'C09par', 'C09ext', 'C09dsp', 'C09step']
 
 IMPORTS = 'From Gen Require Import enums core exec.'
 SPEC_IMPORTS = 'From ArmV Require Import Spec.Pseudocode Spec.Arch Spec.MachineView Spec.Arith.'
@@ -191,4 +191,6 @@ def units():
             Unit('extend', ['C09_' + c.upper() for c in EXT], ['Proofs/ExtProofs.v', 'Proofs/ExtProofs2.v'], [need(c) for c in EXT],
                  sem_cases(EXT), IMPORTS, a2),
             Unit('dsp', ['C09_' + c.upper() for c in DSP], ['Proofs/DspProofs.v', 'Proofs/SatProofs.v', 'Proofs/RbitProofs.v'],
-                 [need(c) for c in DSP], sem_cases(DSP), IMPORTS, a2)]
+                 [need(c) for c in DSP], sem_cases(DSP), IMPORTS, a2),
+            Unit('whole_step', ['C09_plain_step', 'C09_mul_a1_step'], ['Proofs/StepProofs.v', 'Proofs/StepInstancesMul.v'],
+                 ['arm_v6.ArmV6.emulate_cycle', 'arm_v6.ArmV6.execute_instruction', 'arm_v6.ArmV6.increment_pc_if_needed'], None, IMPORTS, a2)]
